@@ -510,10 +510,12 @@ class Printer:
                 if bi == 0:
                     self.t("if", pre)
                 else:
+                    self.mark(("kw", id(s), "elseif", bi))
                     self.t("elseif")
                 self.if_header(s, bi, neg, conds)
                 self.block(body)
             if s[2] is not None:
+                self.mark(("kw", id(s), "else"))
                 self.t("else")
                 self.block(s[2])
         elif k == "switch":
@@ -664,10 +666,12 @@ def needs_sep(a: str, b: str) -> bool:
 
 
 class Rendered:
-    def __init__(self, text, pos, endpos):
+    def __init__(self, text, pos, endpos, posall=None):
         self.text = text
-        self.pos = pos  # mark key -> (line, col) zero based
+        self.pos = pos  # mark key -> (line, col) zero based (last occurrence)
         self.endpos = endpos
+        # mark key -> set of positions: the same statement object can be printed more than once (constant tuples are shared)
+        self.posall = posall or {k: {v} for k, v in pos.items()}
 
 
 def render(toks, layout: random.Random | None = None, comment_p=0.15) -> Rendered:
@@ -677,6 +681,7 @@ def render(toks, layout: random.Random | None = None, comment_p=0.15) -> Rendere
     line = 0
     col = 0
     pos = {}
+    posall = {}
     endpos = {}
     prev = None
 
@@ -705,6 +710,7 @@ def render(toks, layout: random.Random | None = None, comment_p=0.15) -> Rendere
         put(sep)
         for m in tok.marks:
             pos[m] = (line, col)
+            posall.setdefault(m, set()).add((line, col))
         put(tok.text)
         for m in tok.endmarks:
             # position of the last character of the token
@@ -717,7 +723,7 @@ def render(toks, layout: random.Random | None = None, comment_p=0.15) -> Rendere
         if layout.random() < 0.1:
             tail += "/* unterminated"
         put(tail)
-    return Rendered("".join(out), pos, endpos)
+    return Rendered("".join(out), pos, endpos, posall)
 
 
 _BLANKS = ["", "", " ", " ", "  ", "\t", "\n", "\n  ", " \n", "\r\n", "\\\n", " \\ \n "]
